@@ -293,13 +293,14 @@ example : (mergeF true mfCfg mfSt mfSel mfOrder 16 0).p =
       pending := some 5 } := by rfl
 
 /-- (e) the HINT append for k2 (call 5) fails.  Order of the day: the record is in file 3, the
-    entry of k2 still points into file 1 and file 3 counts one live record.  Order before commit
+    entry of k2 still points into file 1 and file 3 counts one live record and one dead one, the copy
+    nothing points at (commit 8c97bf1).  Order before commit
     924dfa8: the entry is re-pointed and counted although the hint file does not list the copy. -/
 example : (mergeF true mfCfg mfSt mfSel mfOrder 5 0).p.st.keydir =
       [([1], ⟨3, 0, 27, 0⟩), ([2], ⟨1, 27, 27, 0⟩), ([3], ⟨1, 0, 27, 0⟩)] ∧
     (mergeF false mfCfg mfSt mfSel mfOrder 5 0).p.st.keydir =
       [([1], ⟨3, 0, 27, 0⟩), ([2], ⟨3, 27, 27, 0⟩), ([3], ⟨1, 0, 27, 0⟩)] ∧
-    AL.get 3 (mergeF true mfCfg mfSt mfSel mfOrder 5 0).p.st.stats = some ⟨1, 0, 0⟩ ∧
+    AL.get 3 (mergeF true mfCfg mfSt mfSel mfOrder 5 0).p.st.stats = some ⟨1, 1, 27⟩ ∧
     AL.get 3 (mergeF false mfCfg mfSt mfSel mfOrder 5 0).p.st.stats = some ⟨2, 0, 0⟩ ∧
     (mergeF true mfCfg mfSt mfSel mfOrder 5 0).p.st.disk = (mergeF false mfCfg mfSt mfSel mfOrder 5 0).p.st.disk ∧
     dataOf (mergeF true mfCfg mfSt mfSel mfOrder 5 0).p.st.disk 3 = [⟨0, [1], some [10]⟩, ⟨0, [2], some [21]⟩] ∧
@@ -645,36 +646,41 @@ def hnT1 : StP := (mergeF true hnCfg hnS0 [0] [[1], [2], [3]] 3 0).p
 /-- … and the next, fault-free pass with the policy's selection -/
 def hnT2 : St := (merge hnCfg hnT1.st [[1], [2], [3]]).1
 
-theorem hn_selT1 : selectFiles hnCfg hnT1.st = [0] := selectFiles_eq (by decide) (by decide)
-theorem hn_T2 : hnT2 = (mergeWith hnCfg hnT1.st [0] [[1], [2], [3]]).1 := by
+theorem hn_selT1 : selectFiles hnCfg hnT1.st = [0, 3] := selectFiles_eq (by decide) (by decide)
+theorem hn_T2 : hnT2 = (mergeWith hnCfg hnT1.st [0, 3] [[1], [2], [3]]).1 := by
   unfold hnT2 merge; rw [hn_selT1]
 
 theorem hnS0_reachM : ReachM hnCfg hnS0 := reachM_runC mfOps .fresh (by simp [mfOps, ValidOps, opOk])
 
 /-- the hypotheses of `c20_merge_lj` / `c20_merge_then_ops_restart_partial` hold for the witness
-    history: failed pass over file 0, then the next pass (same selection) and a reopen -/
+    history: failed pass over file 0, then the next pass (over file 0 and the abandoned output 3) and a reopen -/
 example : LJsel hnS0 [0] ∧ (∀ id, id ∈ [0] → id ≤ hnS0.active) ∧ Covers [[1], [2], [3]] hnS0 ∧
     [0].Pairwise (· ≤ ·) ∧ NoHazard hnS0 [0] ∧
-    ValidOps hnCfg hnT1.move.1 [.merge [0] [[1], [2], [3]], .reopen] :=
+    ValidOps hnCfg hnT1.move.1 [.merge [0, 3] [[1], [2], [3]], .reopen] :=
   ⟨ljsel_of_rinv (reachM_rinv hnS0_reachM).1 (reachM_rinv hnS0_reachM).2 _, by decide, by decide, by decide,
    noHazard_of_noStaleValue (by decide),
    ⟨⟨by decide, by decide, by decide, noHazard_of_noStaleValue (by decide)⟩, trivial, trivial⟩⟩
 
 /-- **the witness history of the old-order counterexample is harmless with the order of the day.**
     The pass over file 0 fails at call 3 (the hint append for `[1]`): the error is reported, the
-    entry of `[1]` still points into file 0 (the copy in file 3 is an unlisted, invisible record).
-    The next pass — fault-free, the policy selects `[0]` again — now finds the entry in file 0,
-    copies the record to a new output WITH hint entry and removes file 0.  In the running process
-    and after a restart every key reads what it read before the failed pass. -/
+    entry of `[1]` still points into file 0 (the copy in file 3 is an unlisted, invisible record,
+    counted as dead in file 3: commit 8c97bf1).  The next pass — fault-free, the policy selects file 0
+    again AND the abandoned output 3 — finds the entry in file 0, copies the record to a new output
+    WITH hint entry and removes file 0 and file 3: nothing of the failed pass is left behind.  In
+    the running process and after a restart every key reads what it read before the failed pass. -/
 theorem c20_merge_new_order_witness_harmless :
     (mergeF true hnCfg hnS0 [0] [[1], [2], [3]] 3 0).err = true ∧ hnT1.pending = none ∧
     AL.get [1] hnT1.st.keydir = some ⟨0, 0, 27, 0⟩ ∧
     dataOf hnT1.st.disk 3 = [⟨0, [1], some [10]⟩] ∧ AL.get 3 hnT1.st.disk.hint = some [] ∧
-    selectFiles hnCfg hnT1.st = [0] ∧
+    AL.get 3 hnT1.st.stats = some ⟨0, 1, 27⟩ ∧ selectFiles hnCfg hnT1.st = [0, 3] ∧
     AL.get [1] hnT2.keydir = some ⟨5, 0, 27, 0⟩ ∧ AL.get 5 hnT2.disk.hint = some [⟨0, 27, 0, [1]⟩] ∧
+    AL.get 0 hnT2.disk.data = none ∧ AL.get 3 hnT2.disk.data = none ∧ AL.get 3 hnT2.disk.hint = none ∧
     (∀ k ∈ [[1], [2], [3], [4]], get hnT2 k = get hnS0 k) ∧
     (∀ k ∈ [[1], [2], [3], [4]], get (reopen hnT2).1 k = get hnS0 k) := by
-  refine ⟨by decide, by rfl, by decide, by decide, by decide, hn_selT1, ?_, ?_, ?_, ?_⟩
+  refine ⟨by decide, by rfl, by decide, by decide, by decide, by decide, hn_selT1, ?_, ?_, ?_, ?_, ?_, ?_, ?_⟩
+  · rw [hn_T2]; decide
+  · rw [hn_T2]; decide
+  · rw [hn_T2]; decide
   · rw [hn_T2]; decide
   · rw [hn_T2]; decide
   · rw [hn_T2]; decide
@@ -711,6 +717,22 @@ theorem c20_merge_lj_needs_visible_example :
     decide
 
 /-! ### counters -/
+
+/-- **C20-merge (an abandoned copy is counted).** Order of the day.  When the hint append of an iteration
+    fails, the copy just appended to the output `m.mid` — which no index entry points at — is counted in
+    that file's counters as one dead entry of the record's length (commit 8c97bf1).  So the output has
+    counters, and `selectFiles`, which only looks at files that have counters, can select it in a later
+    pass (without them the file would stay in the directory for good: defect D14). -/
+theorem c20_merge_abandoned_copy_counted (m : MergeSt) (k : Key) (loc : Loc) (r : Rec) (torn : Nat) :
+    AL.get m.mid (failMove true m k loc r 1 torn).s.stats =
+      some (((AL.get m.mid m.s.stats).getD {}).addDead r.len) ∧
+    (failMove true m k loc r 1 torn).s.keydir = m.s.keydir := by
+  simp [failMove, updStat, AL.get_set_same]
+
+/-- the counters say so in numbers: at least one dead entry and at least the record's bytes -/
+theorem c20_merge_abandoned_copy_dead (m : MergeSt) (k : Key) (loc : Loc) (r : Rec) (torn : Nat) :
+    ∃ st, AL.get m.mid (failMove true m k loc r 1 torn).s.stats = some st ∧ 1 ≤ st.dead ∧ r.len ≤ st.deadBytes := by
+  refine ⟨_, (c20_merge_abandoned_copy_counted m k loc r torn).1, ?_, ?_⟩ <;> simp [Stat.addDead]
 
 /-- **Observation (counters).** After fault (c) — every record copied, the unlink of the first
     input fails — the counters of the two inputs still count the copied records as live (3 live
